@@ -85,9 +85,9 @@ def rand_spec(r, family=None, max_dims=3, outs=None, small=True, limits_prob=0.2
             spec["depth"] = r.randint(1, 6) if d <= 2 else r.randint(1, 4)
         spec["aw"] = rand_aw(r, d, spec["type"]) if r.random() < 0.3 else []
         if spec["rule"] in ("gauss-gegenbauer", "gauss-laguerre", "gauss-hermite"):
-            spec["ab"] = [r.choice([0.0, 0.5, 1.0, 2.0]), 0.0]
+            spec["ab"] = [r.choice([0.0, 0.5, 1.0, 2.0, 1.0 / 3.0, 0.47140452079103168]), 0.0]      # also values that need all 17 digits
         if spec["rule"] == "gauss-jacobi":
-            spec["ab"] = [r.choice([0.0, 0.5, 1.0]), r.choice([0.0, 0.5, 2.0])]
+            spec["ab"] = [r.choice([0.0, 0.5, 1.0, 1.0 / 3.0]), r.choice([0.0, 0.5, 2.0, 0.47140452079103168])]
     elif fam == "sequence":
         spec["rule"] = r.choice(SEQUENCE_RULES)
         spec["type"] = r.choice(DEPTH_TYPES)
